@@ -491,7 +491,9 @@ def run_c15(pid):
         for ch, bps in ((1, 16), (2, 16), (2, 24), (3, 8)):
             upf = upf_of(fe, ch, bps)
             p = dict(nominal, channels=ch, bps=bps, block_size=16)
-            for tot in (0, 1, upf - 1, upf, upf + 1, 40 * upf, 40 * upf + 1):
+            w_ = (bps + 7) // 8 if fe.startswith("byte") else 1
+            # (also: a whole number of samples that is not a whole number of PCM frames)
+            for tot in sorted({0, 1, upf - 1, upf, upf + 1, 40 * upf, 40 * upf + 1, w_, upf + w_, 2 * upf - w_, 40 * upf - w_, 40 * upf + w_, 3 * w_}):
                 if tot < 0:
                     continue
                 jobs.append(job_of(p, fe, 40, tot, tag="total"))
